@@ -34,6 +34,22 @@
     `_partial` = that language only; `&rest` calls of
     inlines (C01-F5), assign, lambda, macros, constants, the optimisers and the cl22+ code
     generators are outside it.
+  * Layer B3 — `compile_core3_correct_partial`: the same theorem for the CORE3 language = core2 +
+    CONSTANTS: `(defconstant K <literal>)` and `(defconst K <closed expression>)` evaluated AT COMPILE
+    TIME, referenced from the main expression, functions, inline functions, lets and other constants
+    (any order of definition, also through functions and inline functions), over the compiler model
+    `Core3.compileCore3` (compile-time value = the consensus evaluator's result on the compiled body,
+    values put in as quoted constants, helper liveness computed through the constants as `frontend`
+    does, then the core2 pipeline), byte-identical to the real compiler on that subset
+    (`modeld core3` vs `cvh compile`, cl21 and strict-cl21).  The source meaning `Core3.evalProg`
+    reads an identifier that no pattern in scope binds and that names a constant as the value of the
+    constant's body in the empty environment (as `Lang.evalSrc` does).  Proof: the lowering lemma
+    `Core3.lower_sound` (putting the compile-time values in preserves the meaning; the constant
+    environment is sound because Layer B2 applies to each constant's little program and the consensus
+    evaluator is deterministic), then Layer B2 with the wider live set.  `_partial` = that language
+    only; the hypothesis `Core3.progWF` re-derives every constant's value (decidable, evaluated by
+    the driver on every generated program); `&rest` calls, assign, lambda, macros, the optimisers and
+    the cl22+ code generators are outside it.
 -/
 import ChialispModel.Lang.Env
 import ChialispModel.Lang.CoreSource
@@ -41,6 +57,8 @@ import ChialispModel.Proofs.EnvLemmas
 import ChialispModel.Proofs.CoreLemmas
 import ChialispModel.Lang.Core2Source
 import ChialispModel.Proofs.Core2Lemmas
+import ChialispModel.Lang.Core3Source
+import ChialispModel.Proofs.Core3Lemmas
 
 namespace C01
 open Lang
@@ -159,6 +177,60 @@ def exampleProg3 : Core2.Prog :=
 
 example : Core2.progWF exampleProg3 = true := by decide
 example : (Core2.compileCore2 exampleProg3).isSome = true := by decide
+
+/-- Layer B3: correctness of the core3 compiler model (core2 + constants evaluated at compile
+    time), for any operator table implementing `i`, `c`, `f`, `r` — the table that runs the
+    constants at compile time is the table the emitted code runs under —, every well-formed
+    core3 program (decidable check `Core3.progWF`), all arguments: call-by-value source meaning
+    `v` ⇒ the emitted CLVM evaluates to `v`. -/
+theorem compile_core3_correct_partial (ops : OpSem) (hops : Core.OpsCore ops) (hfr : Core2.OpsFR ops)
+    (P : Core3.Prog) (hwf : Core3.progWF ops P = true) (code : Val) (hc : Core3.compileCore3 ops P = some code)
+    (n : Nat) (args v : Val) (he : Core3.evalProg ops P n args = .ok v) :
+    Clvm.Evaluates ops code args v :=
+  Core3.compileCore3_correct ops hops hfr P hwf code hc n args v he
+
+/-- the lowering lemma on its own: replacing every reference to a constant by the value the
+    compile-time run produced preserves the source meaning (so the compile-time values ARE the
+    source meanings of the constants' bodies). -/
+theorem constants_lowering_preserves_values_partial (ops : OpSem) (hops : Core.OpsCore ops) (hfr : Core2.OpsFR ops)
+    (P : Core3.Prog) (hwf : Core3.progWF ops P = true) (n : Nat) (args v : Val)
+    (he : Core3.evalProg ops P n args = .ok v) :
+    Core2.evalProg ops (Core3.lowerProg (Core3.constEnv ops P) P) n args = .ok v := by
+  simp only [Core3.progWF, Core3.progWFWith, Bool.and_eq_true, List.all_eq_true] at hwf
+  obtain ⟨⟨⟨⟨hC, hFns⟩, hcfP⟩, hscP⟩, _⟩ := hwf
+  unfold Core3.evalProg at he
+  unfold Core2.evalProg
+  have hp : (Core3.lowerProg (Core3.constEnv ops P) P).params = P.params := rfl
+  rw [hp]
+  by_cases hbo : Core2.bindsOk P.params args = true
+  · rw [if_pos hbo] at he ⊢
+    exact (Core3.lower_sound ops P.consts P.fns (Core3.constEnv ops P) hops hfr hC
+      (fun fd hfd => by simpa [Bool.and_eq_true] using hFns fd hfd) n).1 P.params args P.body v hcfP hscP he
+  · rw [if_neg hbo] at he; simp [failR] at he
+
+/-- non-vacuity of Layer B3 (a constant computed by a recursive function, a constant that refers
+    to a later constant, a literal `defconstant`, constants used in an inline function, in a let
+    and in the main expression; `G` is live only through `K`):
+    `(mod (X) (defun G (A) (if A (* A (G (- A 1))) 1)) (defconst K (+ L (G 3))) (defconst L 10)
+       (defconstant J 17) (defun-inline H (Y) (+ Y K)) (let ((Z (H X))) (c J (c Z L))))` -/
+def exampleProg4 : Core3.Prog :=
+  { params := .cons (.atom [88]) .nil,
+    consts := [
+      ([75], .op 16 (.cons (.var [76]) (.cons (.call [71] (.cons (.lit (.atom [3])) .nil)) .nil))),
+      ([76], .lit (.atom [10])),
+      ([74], .lit (.atom [17]))],
+    fns := [
+      ⟨[71], .cons (.atom [65]) .nil,
+        .ite (.var [65])
+          (.op 18 (.cons (.var [65]) (.cons (.call [71] (.cons (.op 17 (.cons (.var [65]) (.cons (.lit (.atom [1])) .nil))) .nil)) .nil)))
+          (.lit (.atom [1])), false⟩,
+      ⟨[72], .cons (.atom [89]) .nil, .op 16 (.cons (.var [89]) (.cons (.var [75]) .nil)), true⟩],
+    body := .letE [[90]] (.cons (.call [72] (.cons (.var [88]) .nil)) .nil)
+      (.op 4 (.cons (.var [74]) (.cons (.op 4 (.cons (.var [90]) (.cons (.var [76]) .nil))) .nil))) }
+
+example : Core3.constEnv Ops.chiaOps exampleProg4 = [([76], .atom [10]), ([74], .atom [17]), ([75], .atom [16])] := by decide
+example : Core3.progWF Ops.chiaOps exampleProg4 = true := by decide
+example : (Core3.compileCore3 Ops.chiaOps exampleProg4).isSome = true := by decide
 
 -- non-vacuity: a nested pattern with a capture and a dotted tail
 example : nameLookup [66] (.cons (.atom [65]) (.cons (.cons (.atom [64]) (.cons (.atom [67]) (.cons (.cons (.atom [66]) (.atom [68])) .nil))) .nil)) = some 9 := by
